@@ -193,6 +193,13 @@ def shrink(desc, scratch=None, budget=250):
                             row[ci] = copy.deepcopy(v)
             attempt(simp)
     attempt(lambda c: c.__setitem__('start', 'writer'))
+    for key, val in (('comments', None), ('style', 0), ('eol', '\n'), ('final_newline', True)):
+        attempt(lambda c, key=key, val=val: c.__setitem__(key, val))
+    for si in range(len(best['steps'])):
+        if best['steps'][si].get('comments') is not None:
+            attempt(lambda c, si=si: c['steps'][si].__setitem__('comments', None))
+        if best['steps'][si]['op'] == 'write_copy' and len(best['steps'][si]['name']) > 8:
+            attempt(lambda c, si=si: c['steps'][si].__setitem__('name', 'g%d.par' % si))
     attempt(lambda c: c.__setitem__('clock', {'start': 1.7e9, 'ticks': [1.0]}))
     for si in range(len(best['steps'])):
         if best['steps'][si]['op'] == 'append':
